@@ -522,8 +522,19 @@ def weave(tmpl_toks, tmpl_tail, new_toks):
 
 
 def render_verus(toks, tail):
-    """render; a whole-line annotation keeps its line, inline ones are pasted in place"""
-    return rtok.render(toks, tail)
+    """render; returns (text, set of 0-based line offsets that carry at least one code token from /repo)"""
+    out = []
+    code_lines = set()
+    line = 0
+    for t in toks:
+        line += t.trivia.count("\n")
+        out.append(t.trivia)
+        if t.kind != "annot":
+            code_lines.add(line)
+        out.append(t.text)
+        line += t.text.count("\n")
+    out.append(tail)
+    return "".join(out), code_lines
 
 
 def load_unit(unit):
@@ -562,7 +573,10 @@ def generate(unit, repo=None, canary=False):
         if spec.get("module"):
             parts.append(f"pub mod {spec['module']} {{\nuse super::*;\n")
         parts.append(f"// ---- section from {spec['src']} (extracted this run) ----\n")
-        parts.append(render_verus(out, tail))
+        base_line = sum(x.count("\n") for x in parts) + 1
+        rtext, cl = render_verus(out, tail)
+        info.setdefault("code_lines", []).extend(sorted(base_line + k for k in cl))
+        parts.append(rtext)
         if spec.get("module"):
             parts.append("\n}\n")
     if "postlude" in cfg:
@@ -586,26 +600,58 @@ def scan_assumptions(text):
 
 
 def fn_line_map(text):
-    """(start_line, end_line, name) for every fn in the generated file (for mapping errors to obligations)"""
+    """(start_line, end_line, name) for every fn in the generated file (for mapping errors to obligations).
+    A Verus fn is `fn name(..) -> .. requires/ensures .. { body }`; clauses may contain braces, so the body is the
+    brace group after which no `,`/operator follows."""
     try:
         toks, _ = rtok.tokenize(text)
     except rtok.TokError:
         return []
+    toks = [t for t in toks if t.kind != "annot"]
     res = []
+    impls = []
+    for i, t in enumerate(toks):
+        if t.kind == "ident" and t.text == "impl":
+            j = i + 1
+            if j < len(toks) and toks[j].text == "<":
+                d = 0
+                while j < len(toks):
+                    if toks[j].text == "<":
+                        d += 1
+                    elif toks[j].text == ">":
+                        d -= 1
+                        if d == 0:
+                            break
+                    j += 1
+                j += 1
+            ty = toks[j].text if j < len(toks) else "?"
+            k = j
+            while k < len(toks) and toks[k].text != "{":
+                k += 1
+            if k < len(toks):
+                impls.append((toks[i].line, toks[rtok.match_close(toks, k)].line, ty))
     i = 0
+    CONT = {",", "&&", "||", "==", "!=", "<=", ">=", "<", ">", "+", "-", "*", "/", "=", "=>", ".", "?", "&", "|"}
     while i < len(toks):
         if toks[i].kind == "ident" and toks[i].text == "fn" and i + 1 < len(toks) and toks[i + 1].kind == "ident":
             name = toks[i + 1].text
             j = i + 2
-            depth = 0
             while j < len(toks):
                 x = toks[j]
                 if x.kind == "punct" and x.text in ("(", "["):
                     j = rtok.match_close(toks, j)
                 elif x.kind == "punct" and x.text == "{":
                     e = rtok.match_close(toks, j)
-                    res.append((toks[i].line, toks[e].line, name))
-                    break
+                    nxt = toks[e + 1].text if e + 1 < len(toks) else ""
+                    if nxt in CONT:
+                        j = e
+                    else:
+                        q = name
+                        for a, b, ty in impls:
+                            if a <= toks[i].line <= b:
+                                q = ty + "::" + name
+                        res.append((toks[i].line, toks[e].line, q))
+                        break
                 elif x.kind == "punct" and x.text == ";":
                     break
                 j += 1
@@ -636,7 +682,24 @@ def run_verus(text, unit, rlimit=None, keep=None, extra=()):
         shutil.rmtree(tmp, ignore_errors=True)
 
 
-def parse_result(res, text, unit):
+CONTRACT_MSGS = ("postcondition not satisfied", "invariant not satisfied", "possible arithmetic underflow/overflow",
+                 "decreases not satisfied", "possible division by zero", "index out of bounds", "recommendation not met",
+                 "loop invariant", "might not terminate", "could not prove termination", "precondition not satisfied",
+                 "Call to non-static function fails", "assertion failed", "unreachable", "possible bit shift")
+
+
+def classify_failure(msg, line, code_lines):
+    """contract: a clause of a function contract / loop contract / safety condition of real code failed.
+       hint: an intermediate proof step (assert or lemma call written in an annotation line) failed."""
+    on_code = line in code_lines if line is not None else False
+    if msg.startswith("postcondition not satisfied") or "invariant" in msg or "decreases" in msg or "terminat" in msg:
+        return "contract"
+    if on_code:
+        return "contract"       # overflow, bounds, callee precondition, debug_assert (rule X7) at a line of real code
+    return "hint"
+
+
+def parse_result(res, text, unit, code_lines=frozenset()):
     """-> dict(status=ok|fail|tool, obligations=[{name, ok, time_s, rlimit, mode}], failures=[..])"""
     js = res["json"]
     out = {"status": "tool", "obligations": [], "failures": [], "stderr_head": res["stderr"][:6000], "wall_s": res["wall_s"],
@@ -684,14 +747,17 @@ def parse_result(res, text, unit):
         out["reason"] = "resource limit (rlimit) exceeded"
     else:
         out["status"] = "fail"
-        out["failures"] = [{"obligation": e.get("fn", "?"), "msg": e["msg"], "line": e["line"]} for e in out["errors"] if not e["msg"].startswith("aborting")]
+        out["failures"] = [{"obligation": e.get("fn", "?"), "msg": e["msg"], "line": e["line"],
+                            "kind": classify_failure(e["msg"], e["line"], code_lines)}
+                           for e in out["errors"] if not e["msg"].startswith("aborting")]
     return out
 
 
 def verify_unit(unit, repo=None, keep=None, canary=False):
     text, info, cfg = generate(unit, repo, canary=canary)
     res = run_verus(text, unit, rlimit=cfg.get("rlimit"), keep=keep)
-    pr = parse_result(res, text, unit)
+    pr = parse_result(res, text, unit, frozenset(info.get("code_lines", [])))
+    info.pop("code_lines", None)
     pr["extraction"] = info
     pr["assumption_scan"] = scan_assumptions(text)
     pr["generated_sha"] = hashlib.sha256(text.encode()).hexdigest()[:16]
